@@ -8,7 +8,7 @@ from vlib.wsgi import FragStream, make_environ, call_app
 ID = 'C05'
 LEVEL = 'fault_enumeration'
 RULE = ('case = (payload, chunk sizes, per-chunk hex case / leading zeros (0-3, and 14-40: size fields longer than any fixed-width parse) / token extension, last-chunk extension, '
-        'trailers, buffer >= longest size line, read-fragmentation caps). Encoded by the harness encoder. For each '
+        'trailers, buffer >= longest size line, read-fragmentation caps; through WSGI also with an additional Content-Length header of 0 / wire length / 3 / too large, which the transfer coding overrides). Encoded by the harness encoder. For each '
         'encoding: (1) legal decode through _body_read and through WSGI must equal the payload; (2) EVERY strict prefix '
         'that ends before the complete zero-size chunk line must raise BodyParsingError (400 through WSGI); (3) each '
         'chunk CRLF deleted / replaced must be rejected; (4) every single-byte substitution in framing bytes '
@@ -88,7 +88,10 @@ def decode_wsgi(data, buf, pattern):
     def h():
         return app.request.body.read()
 
-    env = make_environ('POST', '/c', stream=FragStream(data, pattern), content_length=None,
+    # a chunked request may also carry a Content-Length header (the transfer coding overrides it): rotate through none / 0 / wire length / small
+    decode_wsgi.n = getattr(decode_wsgi, 'n', 0) + 1
+    cl = [None, None, 0, len(data), 3, len(data) + 50][decode_wsgi.n % 6]
+    env = make_environ('POST', '/c', stream=FragStream(data, pattern), content_length=cl,
                        headers={'Transfer-Encoding': 'chunked'})
     r = call_app(app, env)
     if r.escaped is not None:
